@@ -10,6 +10,19 @@ ASSUMPTIONS = [
   "the xlsx round trip is oracle-only (names compared modulo the leading '=' the writer drops); the binary round trip is C26's theorem",
 ]
 
+def pre_proof(cfg):
+    """the theorems range over the generated tables of the compiled code: regenerate them with C23's translator
+    (its harness binary is rebuilt first, so that the dump is of the code as it is now)"""
+    root = cfg["root"]
+    p = subprocess.run(["bash", "-c", "cargo build --release --offline -p vh_c23 2>&1 | tail -5; exit ${PIPESTATUS[0]}"],
+                       cwd=os.path.join(root, "harness"), env=dict(os.environ, CARGO_NET_OFFLINE="true"),
+                       stdout=subprocess.PIPE, stderr=subprocess.STDOUT, timeout=2400)
+    if p.returncode != 0:
+        raise RuntimeError("building vh_c23 failed: " + p.stdout.decode("utf-8", "replace")[-400:])
+    import c23
+    return c23.pre_proof(cfg)
+
+
 def run(cfg):
     root = cfg["root"]
     out = os.path.join(root, "cases")
